@@ -443,6 +443,109 @@ impl<'a> Visit<'a> for Sites {
     }
 }
 
+// E8: shapes of the serde representations (C19). For every struct / enum that derives `Serialize` or `Deserialize` (directly or
+// under `cfg_attr(feature = "serde", ..)`), outside test modules: its field / variant identifiers in DECLARATION order and every
+// `serde(..)` attribute on the container, its variants and its fields. Items are sorted by name (moving an item is not a change).
+thread_local! { static SERDE_CONDS: std::cell::RefCell<Vec<String>> = std::cell::RefCell::new(vec![]); }
+fn serde_attrs(attrs: &[Attribute], derives: &mut bool, out: &mut Vec<String>) {
+    // `cond`: the `cfg_attr` condition the attribute sits under ("" = unconditional)
+    fn meta(m: &Meta, cond: &str, derives: &mut bool, out: &mut Vec<String>) {
+        let name = m.path().segments.last().map(|s| s.ident.to_string()).unwrap_or_default();
+        if let Meta::List(l) = m {
+            let inner = l.parse_args_with(punctuated::Punctuated::<Meta, Token![,]>::parse_terminated);
+            let note = |c: &str| SERDE_CONDS.with(|v| { let mut v = v.borrow_mut(); if !v.iter().any(|x| x == c) { v.push(c.to_string()); } });
+            match name.as_str() {
+                "cfg_attr" => { if let Ok(ms) = inner { let c = ms.first().map(|x| toks(x)).unwrap_or_default(); let c = if cond.is_empty() { c } else { format!("{}&&{}", cond, c) }; for x in ms.iter().skip(1) { meta(x, &c, derives, out); } } }
+                "derive" => { if let Ok(ms) = inner { for x in ms.iter() { let n = x.path().segments.last().map(|s| s.ident.to_string()).unwrap_or_default(); if n == "Serialize" || n == "Deserialize" { *derives = true; note(cond); } } } }
+                "serde" => { note(cond); match inner { Ok(ms) => for x in ms.iter() { out.push(toks(x)); }, Err(_) => out.push(toks(&l.tokens)) } }
+                _ => {}
+            }
+        }
+    }
+    for a in attrs { meta(&a.meta, "", derives, out); }
+    // an item-level `#[cfg(..)]` on something that carries serde attributes
+    if *derives || !out.is_empty() { for a in attrs { if a.path().is_ident("cfg") { let c = format!("item-cfg:{}", a.meta.require_list().map(|l| toks(&l.tokens)).unwrap_or_default()); SERDE_CONDS.with(|v| { let mut v = v.borrow_mut(); if !v.contains(&c) { v.push(c); } }); } } }
+}
+struct Shapes { out: Vec<(String, String, Vec<String>, Vec<(String, Vec<String>, Vec<String>)>)> }
+fn field_list(fs: &Fields, attrs_out: &mut Vec<String>) -> Vec<String> {
+    let mut names = vec![];
+    for (i, f) in fs.iter().enumerate() {
+        let n = f.ident.as_ref().map(|x| x.to_string()).unwrap_or_else(|| i.to_string());
+        let (mut d, mut a) = (false, vec![]); serde_attrs(&f.attrs, &mut d, &mut a);
+        for x in a { attrs_out.push(format!("{}:{}", n, x)); }
+        names.push(n);
+    }
+    names
+}
+impl<'a> Visit<'a> for Shapes {
+    fn visit_item_mod(&mut self, m: &'a ItemMod) { let n = m.ident.to_string(); if n != "tests" && n != "test" { visit::visit_item_mod(self, m); } }
+    fn visit_item_struct(&mut self, i: &'a ItemStruct) {
+        let (mut d, mut a) = (false, vec![]); serde_attrs(&i.attrs, &mut d, &mut a);
+        if !d { return; }
+        let kind = match &i.fields { Fields::Named(_) => "struct", Fields::Unnamed(u) if u.unnamed.len() == 1 => "newtype", Fields::Unnamed(_) => "tuple", Fields::Unit => "unit" };
+        let mut members = vec![];
+        for (k, f) in i.fields.iter().enumerate() {
+            let n = f.ident.as_ref().map(|x| x.to_string()).unwrap_or_else(|| k.to_string());
+            let (mut fd, mut fa) = (false, vec![]); serde_attrs(&f.attrs, &mut fd, &mut fa);
+            members.push((n, vec![], fa));
+        }
+        self.out.push((i.ident.to_string(), kind.to_string(), a, members));
+    }
+    // `fixed_hash::construct_fixed_hash!( #[attrs] pub struct Name(N); )`: a tuple struct over `[u8; N]`
+    fn visit_item_macro(&mut self, m: &'a ItemMacro) {
+        if m.mac.path.segments.last().map(|s| s.ident == "construct_fixed_hash").unwrap_or(false) {
+            let parsed = m.mac.parse_body_with(|input: parse::ParseStream| { let attrs = input.call(Attribute::parse_outer)?; let _: Visibility = input.parse()?; let _: Token![struct] = input.parse()?; let id: Ident = input.parse()?; let c; parenthesized!(c in input); let n: LitInt = c.parse()?; let _: Option<Token![;]> = input.parse()?; Ok((attrs, id, n)) });
+            if let Ok((attrs, id, n)) = parsed {
+                let (mut d, mut a) = (false, vec![]); serde_attrs(&attrs, &mut d, &mut a);
+                if d { self.out.push((id.to_string(), format!("fixed_hash({})", n.base10_digits()), a, vec![("0".to_string(), vec![], vec![])])); }
+            }
+        }
+    }
+    fn visit_item_enum(&mut self, i: &'a ItemEnum) {
+        let (mut d, mut a) = (false, vec![]); serde_attrs(&i.attrs, &mut d, &mut a);
+        if !d { return; }
+        let mut members = vec![];
+        for v in &i.variants {
+            let (mut vd, mut va) = (false, vec![]); serde_attrs(&v.attrs, &mut vd, &mut va);
+            let fields = field_list(&v.fields, &mut va);
+            members.push((v.ident.to_string(), fields, va));
+        }
+        self.out.push((i.ident.to_string(), "enum".to_string(), a, members));
+    }
+}
+fn json_shapes(outdir: &str) {
+    fn walk(dir: &std::path::Path, out: &mut Vec<std::path::PathBuf>) { if let Ok(rd) = std::fs::read_dir(dir) { let mut es: Vec<_> = rd.filter_map(|e| e.ok()).map(|e| e.path()).collect(); es.sort(); for p in es { if p.is_dir() { walk(&p, out); } else if p.extension().map(|x| x == "rs").unwrap_or(false) { out.push(p); } } } }
+    let mut files = vec![]; walk(std::path::Path::new("/repo/src"), &mut files);
+    SERDE_CONDS.with(|v| v.borrow_mut().clear());
+    let mut sh = Shapes { out: vec![] };
+    let mut hand: Vec<String> = vec![];   // hand-written `impl Serialize for T` / `impl Deserialize for T`
+    for f in &files {
+        let Ok(text) = std::fs::read_to_string(f) else { continue };
+        let Ok(file) = parse_file(&text) else { continue };
+        sh.visit_file(&file);
+        struct H<'b>(&'b mut Vec<String>);
+        impl<'a, 'b> Visit<'a> for H<'b> {
+            fn visit_item_mod(&mut self, m: &'a ItemMod) { let n = m.ident.to_string(); if n != "tests" && n != "test" { visit::visit_item_mod(self, m); } }
+            fn visit_item_impl(&mut self, i: &'a ItemImpl) { if let Some((_, p, _)) = &i.trait_ { let n = p.segments.last().map(|s| s.ident.to_string()).unwrap_or_default(); if n == "Serialize" || n == "Deserialize" { self.0.push(format!("{} for {}", n, toks(&i.self_ty))); } } }
+        }
+        H(&mut hand).visit_file(&file);
+    }
+    sh.out.sort(); hand.sort();
+    let q = |x: &str| format!("\"{}\"", x.replace('\\', "\\\\").replace('"', "\\\""));
+    let ql = |xs: &[String]| format!("[{}]", xs.iter().map(|x| q(x)).collect::<Vec<_>>().join(", "));
+    let mut s = String::from("/-! GENERATED by `harness extract` from /repo's current source on every run — do not edit. -/\n");
+    s.push_str("namespace Gen\n/-- one item deriving `Serialize` / `Deserialize`: name, kind (`struct` | `newtype` | `tuple` | `unit` | `enum`), the container's\n`serde(..)` attributes, and its fields resp. variants in declaration order: (identifier, fields of the variant — positional ones are\nnumbered —, `serde(..)` attributes of the field / variant; those of a variant's fields are prefixed `<field>:`) -/\n");
+    s.push_str("structure JsonItem where\n  name : String\n  kind : String\n  attrs : List String\n  members : List (String × List String × List String)\n  deriving DecidableEq, Repr\n");
+    s.push_str("def jsonShapes : List JsonItem := [\n");
+    let rows: Vec<String> = sh.out.iter().map(|(n, k, a, ms)| format!("  ⟨{}, {}, {}, [{}]⟩", q(n), q(k), ql(a), ms.iter().map(|(m, fs, ma)| format!("({}, {}, {})", q(m), ql(fs), ql(ma))).collect::<Vec<_>>().join(", "))).collect();
+    s.push_str(&rows.join(",\n")); s.push_str("]\n");
+    writeln!(s, "/-- hand-written serde impls (`impl … Serialize for T`, `impl … Deserialize<'de> for T`) outside test modules -/\ndef jsonHandWritten : List String := {}", ql(&hand)).unwrap();
+    let mut conds = SERDE_CONDS.with(|v| v.borrow().clone()); conds.sort();
+    writeln!(s, "/-- the `cfg_attr` conditions under which the serde derives and `serde(..)` attributes above are applied (\"\" = unconditional;\n`item-cfg:…` = a `#[cfg(..)]` on a deriving item itself) -/\ndef jsonCfgConditions : List String := {}", ql(&conds)).unwrap();
+    s.push_str("end Gen\n");
+    std::fs::write(format!("{}/JsonShapes.lean", outdir), s).unwrap();
+}
+
 // E3: every `impl_consensus_encoding!(T, f1, ..)` invocation with the struct's declared fields (names and types)
 fn field_orders(outdir: &str) {
     let mut all = vec![];
@@ -615,6 +718,7 @@ pub fn run(outdir: &str, reviewed_dir: &str) -> Vec<String> {
     pending.push(("Amount".to_string(), s));
     panic_inventory(outdir);
     field_orders(outdir);
+    json_shapes(outdir);
     fingerprints(outdir);
     // ---- Sizes.lean: std::mem::size_of of the vector element types in THIS build of /repo
     {
